@@ -22,6 +22,7 @@ def render_with(B, run, ce, path_items):
     f, env = E._resolve("CompiledExpression::scheme", {"S": "&str"})
     buf = SymBuf(path_items, name="mdt")
     from mirsym.fmtmodel import new_cell
+    I.expand_debug_chars = True           # a path formatted with {:?} is followed character class by character class
     st = St()
     key = new_cell(st, ce)            # a cell, not a snapshot: interior mutability stays visible
     outs = I.call_fn(f, [Ref(key, ()), StrSlice(buf, 0, len(path_items))], st, env)
@@ -40,6 +41,7 @@ def render_history(B, run, ce, paths):
     turn -> [(guard, rope of the last rendering, compiled value afterwards)]"""
     from mirsym.fmtmodel import new_cell
     I = run.I
+    I.expand_debug_chars = True
     E = B.engine(I.profile)
     f, env = E._resolve("CompiledExpression::scheme", {"S": "&str"})
     st = St()
@@ -164,7 +166,9 @@ def run(ctx, rep, tier):
                 # rendered for ARBITRARY path characters (an escaping generator yields one rope per escaping pattern)
                 assume = [char_valid(c) for c in p] + list(pr.assume) + [gprog]
                 cr.I.assumptions = assume
+                cr.I.expand_debug_chars = True         # a path formatted with {:?} is followed character class by character class
                 AP = render_with(B, cr, ce, p)
+                cr.I.expand_debug_chars = False
                 cr.I.assumptions = passume
                 bad_data, broken = False, False
                 for gA, rpA in AP:
@@ -172,21 +176,41 @@ def run(ctx, rep, tier):
                     if a["error"]:
                         bad_data = b_or(bad_data, gA)
                         continue
+                    # the first argument of lipe-scan is one string literal that DECODES to the path (semantically: an escaped
+                    # rendering such as \\n for a newline is right), and the path characters occur in no other literal
                     lits = {id(s_): s_ for _, _, s_ in a["occurrences"]}
-                    whole = len(lits) == 1 and all(len(s_.items) == k and all(x is y or (is_sym(x) and x.eq(y)) for x, y in zip(s_.items, p)) for s_ in lits.values())
-                    scan_ok = False
+                    decoded_ok = False
                     try:
                         scan = find_scan(read_all(rpA))
-                        scan_ok = scan is not None and isinstance(scan[1], Str) and len(scan[1].items) == k
+                        if scan is not None and isinstance(scan[1], Str) and len(scan[1].items) == k and len(lits) <= 1:
+                            decoded_ok = True
+                            for x, y in zip(scan[1].items, p):
+                                if x is y or (is_sym(x) and x.eq(y)):
+                                    continue
+                                if isinstance(x, int):
+                                    decoded_ok = b_and(decoded_ok, y == x)
+                                elif is_sym(x):
+                                    decoded_ok = b_and(decoded_ok, x == y)
+                                else:
+                                    decoded_ok = False
+                                    break
                     except ReadError:
                         pass
-                    if not whole or not scan_ok:
-                        broken = b_or(broken, gA)
+                    broken = b_or(broken, b_and(gA, b_not(decoded_ok)))
                     bad_data = b_or(bad_data, b_and(gA, a["bad"]))
                 res0, m0 = B.solve(tag + ":path-is-the-scan-literal", assume, broken)
                 if res0 == z3.sat:
                     path = "".join(chr(model_char(m0, c)) for c in p)
                     d = B.ctx.run_native([(text, path)], "debug")[0]
+                    ok_native = False
+                    try:
+                        sc = find_scan(read_all([ord(ch) for ch in d.get("scheme", "")]))
+                        ok_native = sc is not None and isinstance(sc[1], Str) and sc[1].text() == path
+                    except ReadError:
+                        pass
+                    if ok_native:
+                        rep.inconclusive.append("path-literal witness %r for %r does not reproduce natively" % (path, text))
+                        continue
                     rep.violation("render:path-literal", "the device path %r is not the whole content of the first argument of lipe-scan for %r" % (path, text),
                                   dict(expr=text, mdt=path, native_scheme=d.get("scheme", "")[-300:]))
                 res, m = B.solve(tag + ":path-stays-data", assume, bad_data)
